@@ -41,7 +41,45 @@ def build(case):
         for i in g["includes"]:
             sg.includes.append(neuroml.Include(segment_groups=i))
         morph.segment_groups.append(sg)
+    # groups that hold ONE Python list object as their members / includes (b.members = a.members): the rows are equal,
+    # the objects are the same
+    for sh in case.get("shares", []):
+        a, b = morph.segment_groups[sh["from"]], morph.segment_groups[sh["to"]]
+        if sh["kind"] == "members":
+            b.members = a.members
+        else:
+            b.includes = a.includes
     return cell
+
+
+def other_cell(cell, idxs):
+    """a second cell whose groups hold the very members lists of groups of `cell`"""
+    oc = neuroml.Cell(id="other")
+    oc.morphology = neuroml.Morphology(id="om")
+    for k, i in enumerate(idxs):
+        g = cell.morphology.segment_groups[i]
+        oc.morphology.segment_groups.append(neuroml.SegmentGroup(id="o%d" % k, members=g.members))
+    return oc
+
+
+def ordered(cell, gid):
+    """get_ordered_segments_in_groups([gid]) in its four forms: the ids listed, how many cumulative lengths, the keys of
+    the two path-length tables"""
+    try:
+        plain = cell.get_ordered_segments_in_groups([gid])
+        r = {"ids": [int(s.id) for s in plain[gid]]}
+        o2, cum = cell.get_ordered_segments_in_groups([gid], include_cumulative_lengths=True)
+        r["ids_cum"] = [int(s.id) for s in o2[gid]]
+        r["n_cum"] = len(cum[gid])
+        o3, pp, pd = cell.get_ordered_segments_in_groups([gid], include_path_lengths=True)
+        r["ids_path"] = [int(s.id) for s in o3[gid]]
+        r["path_keys"] = sorted(int(k) for k in pd[gid])
+        o4, cum4, pp4, pd4 = cell.get_ordered_segments_in_groups(gid, include_cumulative_lengths=True, include_path_lengths=True)
+        r["ids_both"] = [int(s.id) for s in o4[gid]]
+        r["n_cum_both"] = len(cum4[gid])
+        return r
+    except BaseException as e:  # noqa
+        return classify(e)
 
 
 def classify(e):
@@ -97,11 +135,27 @@ def run_case(case):
     if case.get("via_file"):
         cell = via_file(cell)
     ids = [g["id"] for g in case["groups"]]
+    oc = other_cell(cell, case["other_cell"]) if case.get("other_cell") else None
     out = {"resolved": [query(cell, i) for i in ids], "all": query(cell, "all")}
+    if case.get("ordered"):
+        out["ordered"] = [ordered(cell, i) for i in ids]
+    if oc is not None:
+        out["other_before"] = dump_groups(oc)
+    if case.get("optimise_one") is not None:
+        # a single group first (what it does to the groups that share a list with it), then the whole pass
+        try:
+            cell.optimise_segment_group(case["optimise_one"])
+            out["after_one"] = dump_groups(cell)
+        except BaseException as e:  # noqa
+            out["after_one"] = classify(e)
     out["opt"] = optimise(cell)
+    if oc is not None:
+        out["other_after"] = dump_groups(oc)
     if isinstance(out["opt"], list):
         out["resolved_after"] = [query(cell, i) for i in ids]
         out["all_after"] = query(cell, "all")
+        if case.get("ordered"):
+            out["ordered_after"] = [ordered(cell, i) for i in ids]
         out["opt2"] = optimise(cell)
     else:
         out["resolved_after"] = []
@@ -139,6 +193,10 @@ def apply_step(cell, st):
     elif k == "remove_include":
         g = find(cell, st["id"])
         g.includes = [i for i in g.includes if i.segment_groups != st["inc"]]
+    elif k == "share_members":
+        find(cell, st["to"]).members = find(cell, st["from"]).members
+    elif k == "share_includes":
+        find(cell, st["to"]).includes = find(cell, st["from"]).includes
     elif k == "add_group":
         sg = neuroml.SegmentGroup(id=st["id"])
         for m in st["members"]:
